@@ -160,6 +160,54 @@ def identities(case):
   return {'evals': len(rows) * 3, 'nontrivial': True, 'outcome': [float(np.sum(acc[1]))]}
 
 
+def dtypes(case):
+  """Label and score dtypes other than int32 / float32: narrow label types (uint8 / int8 / int16 - EMNIST-62 and CIFAR-100
+  labels fit them) with enough classes that `label * num_classes` leaves the type, numpy vs jax inputs, and integer
+  scores whose magnitude exceeds the float32 integer range. Single examples and a masked batch."""
+  import jax.numpy as jnp
+  from fedjax.core import metrics
+  c, ldt = case['C'], case['label_dtype']
+  targets = sorted({0, 1, c // 2, c - 1} & set(range(min(c, np.iinfo(ldt).max + 1))))
+  preds_idx = sorted({0, c // 3, c - 2, c - 1} & set(range(c)))
+  specs = [{'name': 'ConfusionMatrix', 'num_classes': c}, {'name': 'Accuracy'}, {'name': 'TopKAccuracy', 'k': 2},
+           {'name': 'CrossEntropyLoss'}]
+  evals = 0
+  for spec in specs:
+    m = mr.build(spec)
+    rows = []
+    for t in targets:
+      for pi in preds_idx:
+        pred = np.linspace(-1.0, 1.0, c).astype(np.float32)
+        pred[pi] = 3.0
+        rows.append((t, pred))
+        for as_jax in (True, False):
+          y = np.asarray(t, ldt)
+          got = mr.stat_arrays(m.evaluate_example({'y': jnp.asarray(y) if as_jax else y}, jnp.asarray(pred) if as_jax else pred))
+          _cmp(spec, got, mr.ref_stat(spec, {'y': t}, pred), t, pred, None, 'label dtype %s (%s input)' % (ldt, 'jax' if as_jax else 'numpy'))
+          evals += 1
+    ys = np.asarray([r[0] for r in rows], ldt)
+    ps = np.stack([r[1] for r in rows])
+    mask = np.arange(len(rows)) % 4 != 3
+    st = mr.stat_arrays(metrics.evaluate_batch(m, {'y': jnp.asarray(ys)}, jnp.asarray(ps), jnp.asarray(mask)))
+    want = None
+    for r, keep in zip(rows, mask):
+      if keep:
+        one = mr.ref_stat(spec, {'y': r[0]}, r[1])
+        want = one if want is None else mr.ref_merge(want, one)
+    _cmp(spec, st, want, ys.tolist(), [], None, 'evaluate_batch with %s labels' % ldt)
+    evals += 1
+  if case.get('int_scores'):
+    # integer scores: distinct values stay distinct (no rounding through float32), top-1 == accuracy
+    big = 2 ** 24
+    for scores, t in (([big, big + 1, 3], 1), ([big + 1, big, 3], 0), ([-big - 1, -big, -big - 2], 1), ([5, 7, 7], 1), ([0, 0, 0], 0)):
+      pred = np.asarray(scores, np.int32)
+      for spec in ({'name': 'Accuracy'}, {'name': 'TopKAccuracy', 'k': 1}, {'name': 'TopKAccuracy', 'k': 2}):
+        got = mr.stat_arrays(mr.build(spec).evaluate_example({'y': jnp.asarray(np.int32(t))}, jnp.asarray(pred)))
+        _cmp(spec, got, mr.ref_stat(spec, {'y': t}, [int(v) for v in scores]), t, scores, None, 'int32 scores')
+        evals += 1
+  return {'evals': evals, 'nontrivial': True, 'outcome': [c, ldt]}
+
+
 def jit_path(case):
   """metrics.evaluate_batch is jitted with the metric object as a static (hashed/compared) argument. A group of
   metric objects that differ in exactly ONE constructor field is evaluated one after another, in one process, on the
@@ -247,8 +295,8 @@ def replaced(case):
   return {'evals': 3, 'nontrivial': True, 'outcome': [spec['name'], field]}
 
 
-SUBS = {'grid': grid, 'identities': identities, 'jit_path': jit_path, 'replaced': replaced}
-TIMEOUTS = {'grid': 600, 'identities': 300, 'jit_path': 900, 'replaced': 600}
+SUBS = {'grid': grid, 'identities': identities, 'dtypes': dtypes, 'jit_path': jit_path, 'replaced': replaced}
+TIMEOUTS = {'grid': 600, 'identities': 300, 'dtypes': 600, 'jit_path': 900, 'replaced': 600}
 
 
 def decode_case(case):
@@ -328,6 +376,8 @@ def plan(ctx):
       cases.append({'spec': spec, 'family': 'seq', 'C': c, 'L': l, 'stride': stride})
   ctx.pmap('grid', cases, chunk=4)
   ctx.run('identities', [{'C': 2}, {'C': 3}, {'C': 4}])
+  ctx.pmap('dtypes', [{'C': c, 'label_dtype': d, 'int_scores': c == 3} for c in (3, 20, 62, 130)
+                      for d in ('uint8', 'int8', 'int16', 'uint16', 'int32') if c - 1 <= np.iinfo(d).max], chunk=2)
   lm3 = [None, [0.0, 0.0, '-inf'], ['-inf', 0.0, 0.0], [0.0, '-inf', 0.0], [0.0, 0.0, -1e9], [1.0, 0.0, -1.0]]
   groups = [
       ('seq', 3, 2, [{'name': 'SequenceTokenAccuracy', 'logits_mask': lm} for lm in lm3]),
